@@ -11,7 +11,9 @@ import (
 
 // NotClaimed gives the reason for every property without a check.
 var NotClaimed = map[string]string{
-	"C05": "relational round trip Parse∘JS∘Parse across two large components through io.Writer/strings; no per-function contract within reach of the verifier states 're-parses to the same tree' (DESIGN.md §5 C05)",
+	"C03": "functional correctness of a 2400-line recursive-descent parser against the ECMAScript grammar (precedence, associativity, cover grammar, ASI), observed through String() of a heap tree of about sixty node types: stating it needs the grammar as a specification and an inductive invariant over trees built across the parser's whole call history; the contracts this verifier can discharge (per-function pre/postconditions over integers, slices and field-split heaps, no inductive reasoning over recursive heap structures) cannot express or decide it. The crash-freedom, recursion-depth and cursor aspects of js.Parse are decided under C01 (DESIGN.md section 0.9)",
+	"C04": "'occurrences of the same binding share one Var, different bindings never do' relates the finished tree to ECMAScript's scoping semantics (hoisting, block scopes, parameter scopes, arrow-head reinterpretation) over the whole sequence of Declare/Use/Hoist/Undeclare calls the parser makes; deciding it needs that semantics as ghost state plus a tree-inductive invariant, which per-function contracts over this engine's memory model cannot carry (DESIGN.md section 0.9)",
+	"C05": "relational round trip Parse∘JS∘Parse across two large components through io.Writer/strings; no per-function contract within reach of the verifier states 're-parses to the same tree' (DESIGN.md section 0.9 and section 5 C05)",
 }
 
 var pendingReason = "no check registered yet: contracts for this property are not discharged yet (engine under construction, DESIGN.md §10)"
